@@ -94,6 +94,21 @@ def shuffle (S : Nat) (ρ : Rand) (h1 h2 : HelperIn) :
   let c := txor c1 c2
   (({ left := a, right := b }, { left := b, right := c }, { left := c, right := a }), (x1, x2, y1, y2))
 
+/-- Row counts per destination shard after one `mask_and_shuffle` round, from the counts before it:
+a function of the PRSS destinations only. -/
+def routeShape (S : Nat) (dest : Nat → Nat → Nat) (sh : List Nat) : List Nat :=
+  (List.range S).map (fun d => ((positions sh).filter (fun p => dest p.1 p.2 == d)).length)
+
+/-- The cardinality message: `|x3|` on every shard of H2 (`send_word(Direction::Left, x3.len())`), i.e.
+the input shape routed through the three permutation rounds 12, 31, 23. -/
+def cardinalities (S : Nat) (ρ : Rand) (sh : List Nat) : List Nat :=
+  routeShape S ρ.r23.dest (routeShape S ρ.r31.dest (routeShape S ρ.r12.dest sh))
+
+/-- H1's output table on one shard: ONE loop `(0..sz).map(|i| S::new(a_i, b_i))` over the announced
+cardinality `sz` — row `i` exists for every `i < sz`, no slicing, no other bound. -/
+def h1Table (a b : Nat → Row) (sz : Nat) : List (Row × Row) :=
+  (List.range sz).map (fun i => (a i, b i))
+
 /-- XOR of `left` of H1, `right` of H1 and `right` of H2 — the reconstructed rows. -/
 def reconstruct (o : HelperOut × HelperOut × HelperOut) : Table :=
   txor (txor o.1.left o.1.right) o.2.1.right
